@@ -398,7 +398,7 @@ func Run(r *ev.Run) {
 		ts = append(gen.Composites(3), gen.Catalog()...)
 	}
 	opts := options()
-	r.Rule("G-type (C04's types plus recursive and unsupported-kind types) x options {nil, IgnoreInvalidTypes, TypeSchemas overriding each of 6 named types (incl. embedded ones) with a marked schema, with/without IgnoreInvalidTypes, the same with the override written as a Types list (3 forms, spare capacity), overrides of time.Time and big.Int, one *Schema shared by three entries} x JSONSCHEMAGODEBUG in {unset, typeschemasnull=1, typeschemasnull=0} (separate worker processes). Per call: (1) two calls give deep-equal trees and identical bytes; (2) the Schema pointer sets of both results and of the supplied TypeSchemas are pairwise disjoint; (3) Resolve accepts the result; (4) properties = the fields encoding/json emits (independent re-implementation of its field selection, itself checked against json.Marshal of a fully populated value), PropertyOrder = field order; (5) required = fields with neither omitempty nor omitzero; (6) pointer-ness (and slices) add null; (7) the override mark appears once per occurrence, at exactly the positions of the overridden type, with null added exactly once for pointer uses; clauses 4-6 are checked under every option set (with IgnoreInvalidTypes: minus the fields of unsupported type); (8) recursive types: error; (9) unsupported kinds: error, or dropped with IgnoreInvalidTypes. (10) the generic For[T] agrees with ForType on 14 types x every option set, and options never linger into a later call. Non-trivial = every (type, options) call")
+	r.Rule("G-type (C04's types plus recursive and unsupported-kind types) x options {nil, IgnoreInvalidTypes, TypeSchemas overriding each of 6 named types (incl. embedded ones) with a marked schema, with/without IgnoreInvalidTypes, the same with the override written as a Types list (3 forms, spare capacity), overrides of time.Time and big.Int, one *Schema shared by three entries} x JSONSCHEMAGODEBUG in {unset, typeschemasnull=1, typeschemasnull=0} (separate worker processes). Per call: (1) two calls give deep-equal trees and identical bytes; (2) the Schema pointer sets of both results and of the supplied TypeSchemas are pairwise disjoint; (3) Resolve accepts the result; (4) properties = the fields encoding/json emits (independent re-implementation of its field selection, itself checked against json.Marshal of a fully populated value), PropertyOrder = field order; (5) required = fields with neither omitempty nor omitzero; (6) pointer-ness (and slices) add null; (7) the override mark appears once per occurrence, at exactly the positions of the overridden type, with null added exactly once for pointer uses; clauses 4-6 are checked under every option set (with IgnoreInvalidTypes: minus the fields of unsupported type); (8) recursive types: error; (9) unsupported kinds: error, or dropped with IgnoreInvalidTypes. (11) after the caller has overwritten everything reachable from one result, a further call with the same arguments returns the original value (option sets without TypeSchemas); (10) the generic For[T] agrees with ForType on 14 types x every option set, and options never linger into a later call. Non-trivial = every (type, options) call")
 	r.Assume("encoding/json is the oracle for the field set; the independent field-selection model must reproduce json.Marshal's keys on every type (else harness error)",
 		"where an embedded struct type is overridden through TypeSchemas the golden tests pin sorted order and non-required: clauses 4-5 are skipped for such structs")
 	r.Set("types", len(ts))
@@ -516,6 +516,20 @@ func Run(r *ev.Run) {
 		if _, err := s1.Resolve(nil); err != nil {
 			fail("Resolve rejects the result", err.Error())
 		}
+		// the caller owns the result: after it has overwritten everything reachable from the second
+		// result (through every pointer, slice and map), a further call must still return the first value
+		// (without TypeSchemas: a supplied schema legitimately shares its non-schema slices with
+		// the results, as documented for CloneSchemas, so editing a result can edit the argument)
+		if o.ts == nil {
+			scribble(reflect.ValueOf(s2), map[uintptr]bool{})
+			var s3 *jsonschema.Schema
+			var e3 error
+			if p := par.Call(func() { s3, e3 = jsonschema.ForType(t.Type, mkOpts()) }); p != "" {
+				fail("panic after the caller edited an earlier result", p)
+			} else if b3, _ := json.Marshal(s3); e3 != nil || string(b3) != string(b1) {
+				fail("a later call sees the caller's edits of an earlier result", fmt.Sprintf("first %s, after edits %s (%v)", b1, b3, e3))
+			}
+		}
 		if o.marks != nil {
 			want := occurrences(t.Type, o.marks, map[reflect.Type]bool{})
 			got := countMarks(s1, o.marks)
@@ -627,6 +641,59 @@ func genericAgree(r *ev.Run) {
 	genericOne[int](r, "int", opts)
 	genericOne[time.Time](r, "time.Time", opts)
 	genericOne[any](r, "any", opts)
+}
+
+// scribble overwrites everything reachable from v in place.
+func scribble(v reflect.Value, seen map[uintptr]bool) {
+	switch v.Kind() {
+	case reflect.Pointer:
+		if v.IsNil() || seen[v.Pointer()] {
+			return
+		}
+		seen[v.Pointer()] = true
+		scribble(v.Elem(), seen)
+	case reflect.Interface:
+		if !v.IsNil() && v.Elem().Kind() == reflect.Pointer {
+			scribble(v.Elem(), seen)
+		}
+	case reflect.Struct:
+		for i := 0; i < v.NumField(); i++ {
+			if v.Type().Field(i).IsExported() {
+				scribble(v.Field(i), seen)
+			}
+		}
+	case reflect.Slice:
+		for i := 0; i < v.Len(); i++ {
+			scribble(v.Index(i), seen)
+		}
+	case reflect.Map:
+		for _, k := range v.MapKeys() {
+			e := v.MapIndex(k)
+			scribble(e, seen)
+			if e.Kind() != reflect.Pointer && e.Kind() != reflect.Interface && e.Kind() != reflect.Slice && e.Kind() != reflect.Map {
+				n := reflect.New(e.Type()).Elem()
+				n.Set(e)
+				scribble(n, seen)
+				v.SetMapIndex(k, n)
+			}
+		}
+	case reflect.String:
+		if v.CanSet() {
+			v.SetString(v.String() + "~edited")
+		}
+	case reflect.Bool:
+		if v.CanSet() {
+			v.SetBool(!v.Bool())
+		}
+	case reflect.Int, reflect.Int64:
+		if v.CanSet() {
+			v.SetInt(v.Int() + 12345)
+		}
+	case reflect.Float64:
+		if v.CanSet() {
+			v.SetFloat(v.Float() + 12345.5)
+		}
+	}
 }
 
 func lastLine(s string) string {
